@@ -161,7 +161,16 @@ class NormLIAMacro(Macro):
 
     def get_proof_term(self, args, prevs) -> ProofTerm:
         goal = args[0]
-        return verit_conv.norm_lia_conv().get_proof_term(goal)
+        pt = verit_conv.norm_lia_conv().get_proof_term(goal)
+        expected = from_int_la(to_la(goal))
+        if pt.rhs != expected:
+            # The conversion writes the normal form differently from from_int_la
+            # (1 * x for x, no leading 0, other bracketing): connect the two
+            # through the normal form of integer polynomials.
+            pt1 = refl(pt.rhs).on_rhs(integer.int_norm_conv())
+            pt2 = refl(expected).on_rhs(integer.int_norm_conv())
+            pt = pt.transitive(pt1, pt2.symmetric())
+        return pt
 
 
 
